@@ -73,7 +73,8 @@ theorem slice_eq : ∀ (s : List Char) (o i j : Nat), i ≤ j → j ≤ s.length
       rw [slice_start cs (o + c.utf8Size) o (o + c.utf8Size) _ (by omega) (Nat.le_refl _)]
       have := slice_eq cs (o + c.utf8Size) 0 j (Nat.zero_le _) (by simpa using hj)
       simp only [List.take_zero, byteLen_nil, Nat.add_zero, List.drop_zero, Nat.sub_zero] at this
-      rw [← this, Nat.add_assoc]
+      rw [Nat.add_assoc] at this
+      exact this
   | c :: cs, o, i + 1, 0, hij, _ => by omega
   | c :: cs, o, i + 1, j + 1, hij, hj => by
       have hpos := Char.utf8Size_pos c
@@ -154,7 +155,7 @@ theorem bounds_slice (s : List Char) (i j : Option Int) :
                   simp only [hjl, if_true, hneg, hji, hnot, decide_false, Bool.or_self, Bool.false_eq_true, if_false]
                   have := slice_eq s 0 i0.toNat j.toNat (by omega) hjl
                   simp only [Nat.zero_add] at this
-                  rw [this]
+                  rw [this, hd]
                 · have hgt : j.toNat > s.length := by omega
                   simp [hjl, hgt]
             · have hgt : j.toNat > s.length := by omega
